@@ -174,7 +174,7 @@ KfAlignFlags(cfg) == IsX86(cfg.abi) /\ cfg.align /\ ~cfg.flags
 ClobUniverse(abi) ==       \* first, last, a caller-saved, a callee-saved (+2)
   CASE IsX64(abi) -> IF Wide THEN <<"rax", "rbx", "rcx", "rdi", "r11", "r15">>
                      ELSE <<"rax", "rbx", "rdi", "r15">>
-    [] abi = "ia32pe" -> IF Wide THEN <<"eax", "ebx", "ecx", "edx", "esi", "edi">>
+    [] abi = "ia32pe" -> IF Wide THEN <<"eax", "ebx", "ecx", "esi", "edi">>
                          ELSE <<"eax", "ebx", "ecx", "edi">>
     [] abi = "arm64" -> IF Wide THEN <<"x0", "x1", "x9", "x19", "x29", "x30">>
                         ELSE <<"x0", "x9", "x19", "x30">>
@@ -184,10 +184,13 @@ ClobUniverse(abi) ==       \* first, last, a caller-saved, a callee-saved (+2)
 \* the first scratch candidate (also in the clobber universe) plus another;
 \* (Wide: a register that is not a scratch candidate)
 ReadChoices(abi) ==
-  CASE IsX64(abi) -> {<<>>, <<"rcx">>, <<"rax", "rdx">>} \cup (IF Wide THEN {<<"rdx">>, <<"rbx", "rsi">>} ELSE {})
+  CASE IsX64(abi) -> IF Wide THEN {<<>>, <<"rdx">>, <<"rsi", "r8">>, <<"rax", "rdx">>}
+                     ELSE {<<>>, <<"rcx">>, <<"rax", "rdx">>}
     [] abi = "ia32pe" -> {<<>>, <<"edx">>, <<"eax", "esi">>} \cup (IF Wide THEN {<<"esi">>} ELSE {})
-    [] abi = "arm64" -> {<<>>, <<"x1">>, <<"x0", "x2">>} \cup (IF Wide THEN {<<"x2">>, <<"x16">>} ELSE {})
-    [] OTHER -> {<<>>, <<"t1">>, <<"t0", "t2">>} \cup (IF Wide THEN {<<"t2">>, <<"a1">>} ELSE {})
+    [] abi = "arm64" -> {<<>>, <<"x1">>, <<"x0", "x2">>}
+                        \cup (IF Wide THEN {<<"x2">>, <<"x3", "x4">>, <<"x16">>} ELSE {})
+    [] OTHER -> {<<>>, <<"t1">>, <<"t0", "t2">>}
+                \cup (IF Wide THEN {<<"t2">>, <<"t3", "t4">>, <<"a1">>} ELSE {})
 SubSeqs(u) == {SelectSeq(u, LAMBDA r : r \in s) : s \in SUBSET SeqToSet(u)}
 
 \* the space is enumerated in two stages so that the expensive part (the
